@@ -18,7 +18,7 @@ JOBS = {'quick': 4, 'thorough': 16}
 REQUIRED_MONITORS = ('equivariance_generic', 'invariants_axis_free', 'invariants_two_atom', 'distance_one_atom')
 REQUIRED_CLASSES = ('ref:1-atom', 'ref:2-atoms', 'ref:general', 'geometry:linear-z', 'geometry:partial-collinear',
                     'geometry:linear-moved', 'motion:generic', 'motion:translation', 'motion:rotation', 'motion:tiny',
-                    'motion:nearpi', 'motion:large-translation', 'motion:half-turn-axis', 'motion:bond-flip', 'motion:near-previous', 'anchor:near-collinear-judged')
+                    'motion:nearpi', 'motion:large-translation', 'motion:half-turn-axis', 'motion:bond-flip', 'motion:near-previous', 'anchor:near-collinear-judged', 'ref:2-atoms-not-bonded')
 RULE = ('(reference, target, s) as in C01 plus references of 1 and 2 atoms; each mapped on M rigidly moved copies (M = 8 '
         'quick, 64 thorough; rotation classes generic/tiny/near-pi/identity x translations up to +-100 nm). Non-trivial: '
         'the motion is not the identity. distinct = distinct (reference class, geometry, motion class, s class, size bucket)')
@@ -154,6 +154,9 @@ def run_case(ctx, case):
             geometry = 'small'
             info = {'geometry': 'small'}
             edges = [(0, 1)] if n == 2 else []
+            if n == 2 and rng.random() < 0.4:
+                edges = []              # the two atoms are not bonded in the topology (an ion pair written as one molecule)
+                ctx.hit('ref:2-atoms-not-bonded')
             pos = rng.normal(size=(n, 3)) * (1 + 20 * (rng.random() < 0.3))
             if n == 2 and rng.random() < 0.4:
                 # bond along a coordinate axis
